@@ -580,3 +580,50 @@ func judgePaths(c *common.Ctx, n *Model, dstmts, nstmts []stmt, rp replay) {
 		}
 	}
 }
+
+// scopeOf: which of the edit kinds that C16_delta_sound_columns_partial excludes a pair of versions contains ("in" =
+// none: the theorem covers the pair).  Only recorded in the histogram; what binds is clause 4 of c16_ok, where Coq
+// computes the scope itself and demands that the oracle found nothing on every pair inside it.
+func scopeOf(o, n *Model) string {
+	plain := func(c *Col) string { // the mapped primitive, ~autoinc ignored
+		p := *c
+		p.Auto = false
+		return expType(n, nil, &p, 0)
+	}
+	for i := range n.Tables {
+		nt := &n.Tables[i]
+		ot := o.table(nt.Name)
+		if ot == nil {
+			continue
+		}
+		for j := range nt.Cols {
+			nc := &nt.Cols[j]
+			oc := ot.col(nc.Name)
+			if oc == nil {
+				continue
+			}
+			nAuto, oAuto := nc.Ref == nil && nc.Auto, oc.Ref == nil && oc.Auto
+			switch {
+			case nAuto && !oAuto:
+				return "out:autoinc-added"
+			case nAuto && plain(oc) != plain(nc):
+				return "out:autoinc-column-retyped"
+			case nc.Ref != nil && oc.Ref != nil && *nc.Ref == *oc.Ref && expType(o, ot, oc, 0) != expType(n, nt, nc, 0):
+				return "out:reference-to-retyped-column"
+			}
+		}
+		for j := range ot.Cols {
+			if nt.col(ot.Cols[j].Name) != nil {
+				continue
+			}
+			for _, t := range o.Tables {
+				for _, c := range t.Cols {
+					if c.Ref != nil && c.Ref[0] == ot.Name && c.Ref[1] == ot.Cols[j].Name {
+						return "out:referenced-column-dropped"
+					}
+				}
+			}
+		}
+	}
+	return "in"
+}
